@@ -69,7 +69,7 @@ CHECKS = {
          "DESIGN.md section 3, C13"),
  "C14": ("proptest crash oracle (catch_unwind) over token soup, arbitrary Unicode and mutated valid texts; thorough tier adds a coverage-guided libFuzzer campaign (cargo-fuzz, ASan) with the same oracle inside the target",
          "Totality is attacked with generators aimed at the parser's numeric conversions (literal lengths 1-80, all sign combinations, values around 2^63/2^64, huge register numbers) plus arbitrary strings and mutations of valid programs; the oracle is that assemble() returns. Exploration.",
-         "A panic must unwind to be observed (harness built with panic=unwind); time bound is a 2 s per-call watchdog reported as inconclusive.",
+         "A panic must unwind to be observed (harness built with panic=unwind); time bound is a 20 s per-call watchdog reported as inconclusive.",
          "DESIGN.md section 3, C14"),
  "C15": ("proptest validity predicate: disassembler output vs independent decoder, mnemonic table and a parser of the assembler syntax; thorough tier adds a coverage-guided libFuzzer campaign (cargo-fuzz, ASan) with the same oracle inside the target",
          "Instruction streams over every opcode, all register nibbles, extreme offsets and immediates are disassembled; each entry's fields, merged immediate, name and parsed text are compared with the reference decoding (thorough: every opcode x all 65536 offsets enumerated). Exploration.",
